@@ -470,3 +470,15 @@ Lemma guarded_example :
   map (vcontents (run_ops (init 4) ex_guarded)) [0; 1; 2; 3] =
     [[1; 5; 7; 9]; [2; 8; 6; 1; 9; 7; 5]; [7; 0; 1]; [1; 9; 7; 5]]%Z.
 Proof. repeat split; vm_compute; reflexivity. Qed.
+
+(* the histories that were the add and subseq findings are inside the guard now and come out right *)
+Definition ex_add_siblings : list (op * nat) :=
+  [(OList [1; 2; 3]%Z 0, 3); (OAdd 0 4 1, 6); (OAdd 1 5 2, 8); (OAdd 1 6 3, 8)].
+Definition ex_subseq_copy : list (op * nat) :=
+  [(OList [1; 2; 3]%Z 0, 3); (OSubseq 1 3 0 1, 2); (OSetcar 1 7, 0)].
+Lemma repaired_examples :
+  guard_ops 4 (init 4) ex_add_siblings = true /\
+  map (vcontents (run_ops (init 4) ex_add_siblings)) [2; 3] = [[1; 2; 3; 4; 5]; [1; 2; 3; 4; 6]]%Z /\
+  guard_ops 4 (init 4) ex_subseq_copy = true /\
+  map (vcontents (run_ops (init 4) ex_subseq_copy)) [0; 1] = [[1; 2; 3]; [7; 3]]%Z.
+Proof. repeat split; vm_compute; reflexivity. Qed.
